@@ -173,6 +173,11 @@ def streams(tier, rng, P, only=None, cases=None):
             elif k == "array":
                 arr = [rng.randint(-9, 99) for _ in range(rng.randrange(1, 7))]; ix = rng.randrange(0, len(arr))
                 src = "ARRAY A=(%s) PRINT(A(%d))" % (",".join(map(str, arr)), ix); mreq = "expr I%d" % arr[ix]
+            elif rng.random() < 0.3:
+                # an array whose elements are arrays: SizeOf counts the top-level elements, indexing returns the inner array
+                inner = [[rng.randint(0, 9) for _ in range(rng.randrange(1, 4))] for _ in range(rng.randrange(2, 4))]
+                defs = "".join("ARRAY A%d=(%s);" % (k, ",".join(map(str, a))) for k, a in enumerate(inner))
+                src = defs + "ARRAY ZZA=(%s);PRINT(SizeOf(ZZA))" % ",".join("A%d" % k for k in range(len(inner))); mreq = "expr I%d" % len(inner)
             else:
                 arr = [rng.randint(0, 99) for _ in range(rng.randrange(1, 9))]
                 src = "ARRAY A=(%s) PRINT(SizeOf(A))" % ",".join(map(str, arr)); mreq = "expr I%d" % len(arr)
